@@ -139,10 +139,13 @@ def run(ctx):
                                    'offending': [list(x) for x in facts['C15GenScan']['offending']]}
     ctx.prove()
     ctx.log(f'build+prove {time.time() - t:.1f}s')
-    # correspondence of the real caches / closures with the automaton over the regenerated keys
-    O.correspond(ctx, facts, ok)
-    # the search (runs always): refutation witnesses for broken ties, random pool histories, operand checksums
-    O.search(ctx, facts, ok)
+    import traceback
+    # correspondence, then the search (runs always): refutation witnesses for broken ties, random pool histories, operand checksums
+    for stage in (lambda: O.correspond(ctx, facts, ok), lambda: O.search(ctx, facts, ok)):
+        try:
+            stage()
+        except Exception as e:      # noqa: BLE001 - a crash of one stage must not hide what the other finds
+            ctx.broke('harness', type(e).__name__, traceback.format_exc())
 
 
 def replay(ctx, data):
